@@ -197,7 +197,7 @@ func VerifC17Read() {
 		vrt.Assert(got == lines[i], "read-returns-the-next-line")
 	}
 	_, err := s.Run(call("read"), true)
-	vrt.Assert(err != nil && Class(err) == EOther, "read-at-end-of-input-is-a-read-error")
+	vrt.Assert(err != nil && Class(err) == ERead, "read-at-end-of-input-is-a-read-error")
 	_, e2 := s.Run(call("read", ilit(1)), true)
 	vrt.Assert(Class(e2) == EArity, "wrong-argument-count-is-an-arity-error")
 	vrt.Cover("done")
